@@ -1,6 +1,6 @@
 // C08 kernels: thin wrappers around etl::basic_string_view<CH>. No logic besides marshalling.
-#include "vf.h"
 #include <etl/string_view.hpp>
+#include "vf.h" // after the library headers (K and Q are macros)
 #ifndef CH
 #define CH char
 #endif
